@@ -590,3 +590,39 @@ impl Default for ReactCache
 }
 
 //-------------------------------------------------------------------------------------------------------------------
+
+#[cfg(bevy_cobweb_verif)]
+impl ReactCache
+{
+    /// Entry counts and key counts of (component, despawn, any-entity-event, resource, broadcast) tables, and the
+    /// reactor entity of every handle stored in them.
+    pub(crate) fn verif_sizes(&self) -> ([usize; 5], [usize; 5], Vec<Entity>)
+    {
+        let mut targets = Vec::new();
+        let mut comp = 0usize;
+        for c in self.component_reactors.values()
+        {
+            for h in c.insertion_callbacks.iter().chain(c.mutation_callbacks.iter()).chain(c.removal_callbacks.iter())
+            {
+                comp += 1;
+                targets.push(*h.sys_command());
+            }
+        }
+        let mut count = |map_iter: &mut dyn Iterator<Item = &Vec<ReactorHandle>>| -> usize
+        {
+            let mut n = 0usize;
+            for v in map_iter { for h in v.iter() { n += 1; targets.push(*h.sys_command()); } }
+            n
+        };
+        let desp = count(&mut self.despawn_reactors.values());
+        let any = count(&mut self.any_entity_event_reactors.values());
+        let res = count(&mut self.resource_reactors.values());
+        let bc = count(&mut self.broadcast_reactors.values());
+        (
+            [comp, desp, any, res, bc],
+            [self.component_reactors.len(), self.despawn_reactors.len(), self.any_entity_event_reactors.len(),
+                self.resource_reactors.len(), self.broadcast_reactors.len()],
+            targets
+        )
+    }
+}
